@@ -287,7 +287,6 @@ class XPath1Parser(Parser[ta.XPathTokenType]):
     def parse_occurrence(self, token: XPathToken) -> None:
         """Parse the occurrence for the current token."""
         if self.next_token.symbol in ('*', '+', '?'):
-            assert self.token is token
             token.occurrence = self.next_token.symbol
             self.advance()
             self.next_token.unexpected('*', '+', '?')
